@@ -1,4 +1,5 @@
 import SpecterModel.C01.Sim
+import SpecterModel.C01.Props
 /-!
 Driver core shared by C03 (acknowledged data survives churn) and C05 (each key lives only on its
 owner): ring model + a ghost sequential KV fed with every ACKNOWLEDGED write + key hashes.
@@ -91,7 +92,28 @@ def placementCheck (hashes : List (String × Nat)) (d : String) : Option String 
       | some (_, n') => some s!"key {k} is held by two nodes: {n} and {n'}"
       | none => none
 
-/-- `check03`: apply the C03 ghost spec; `check05`: apply the placement spec on `quiet` lines. -/
+/-- SPEC for C10: on a stable ring, listing by prefix from any member returns exactly the stored keys
+with that prefix, once per kind of data (S = non-empty simple value, P = prefix children), nothing else. -/
+def listKeysCheck (s : DState) (toks : List String) (ires : String) : Option String :=
+  match toks with
+  | ["listkeys", n, pre] =>
+    match n.toNat? with
+    | some n =>
+      if Specter.C01.stableB s.net && Specter.C01.memB s.net n &&
+         s.net.all (fun q => !Specter.C01.memB s.net q.1 || (q.2.state == .active && !q.2.crashed)) then
+        let p := if pre == "-" then "" else pre
+        let want := sortStrs (s.ghost.flatMap fun (k, e) =>
+          if k.startsWith p then
+            (match e.simple with | some _ => ["S:" ++ k] | none => []) ++ (if e.children.isEmpty then [] else ["P:" ++ k])
+          else [])
+        let w := "keys:" ++ (if want.isEmpty then "-" else ",".intercalate want)
+        if ires == w then none else some s!"listing prefix '{p}' from {n} returned {ires}, stored keys are {w}"
+      else none
+    | none => none
+  | _ => none
+
+/-- `check03`: apply the C03 ghost spec; `check05`: apply the placement spec on `quiet` lines;
+the ghost is always maintained. -/
 def step (check03 check05 : Bool) (s : DState) (toks : List String) (rhs : String) : DState × Verdict :=
   match toks with
   | ["reset"] => ({}, .ok)
@@ -113,7 +135,8 @@ def step (check03 check05 : Bool) (s : DState) (toks : List String) (rhs : Strin
     | none => (s, .bad "unknown ring op")
     | some (net', res) =>
       let (ires, _) := splitRhs rhs
-      let (g', verdict) := if check03 then ghostStep s.ghost toks ires else (s.ghost, none)
+      let (g', verdict0) := ghostStep s.ghost toks ires
+      let verdict := if check03 then verdict0 else if !check05 then listKeysCheck s toks ires else none
       let s' := { s with net := net', ghost := g' }
       match verdict with
       | some w => (s', .spec w)
